@@ -43,6 +43,9 @@ type ReconnCase struct {
 	Methods []string `json:"methods"` // one monitor per entry, over T1, T2, T3
 	Faults  []Fault  `json:"faults"`
 	Seed    int      `json:"seed"`
+	// Since: the server (as seen through the proxy) remembers transaction ids: monitor_cond_since with the id
+	// of the last transaction the client saw is answered with found = true and the difference only
+	Since bool `json:"since"`
 }
 
 // gatedReconnect (build tag verif): a cut, then the restarted monitor's reply held at the pause point while a
@@ -69,6 +72,7 @@ func RunReconn(b *abs.Built, tok *abs.Tokens, dir string, c ReconnCase, rec *rec
 		return nil, err
 	}
 	defer px.Close()
+	px.Since(c.Since)
 	l := logr.Discard()
 	opts := []client.Option{client.WithEndpoint("unix:" + px.Path), client.WithLogger(&l),
 		client.WithReconnect(2*time.Second, backoff.NewConstantBackOff(5*time.Millisecond))}
@@ -377,7 +381,7 @@ func RunReconn(b *abs.Built, tok *abs.Tokens, dir string, c ReconnCase, rec *rec
 		}
 	}
 	mu.Unlock()
-	return map[string]interface{}{"converged": converged, "fired": fired, "markers": len(markers), "msgs": px.Msgs, "wedged": wedged}, nil
+	return map[string]interface{}{"converged": converged, "fired": fired, "markers": len(markers), "msgs": px.Msgs, "wedged": wedged, "sinceFound": px.SinceFound}, nil
 }
 
 func sameJSON(a, b interface{}) bool {
